@@ -37,11 +37,16 @@ impl<T: Copy> Delay<T> {
     /// Change the delay.
     pub fn set_delay(&mut self, delay: usize) {
         if delay > self.delay {
-            self.current_delay = delay - self.delay;
+            // More delay: that many more zeroes are owed, on top of whatever
+            // part of the old delay has not been written yet.
+            self.current_delay += delay - self.delay;
         } else {
-            let cdskip = std::cmp::min(self.current_delay, delay);
+            // Less delay: take it out of the zeroes not yet written first,
+            // and drop input samples for the rest.
+            let reduce = self.delay - delay;
+            let cdskip = std::cmp::min(self.current_delay, reduce);
             self.current_delay -= cdskip;
-            self.skip = (self.delay - delay) - cdskip;
+            self.skip += reduce - cdskip;
         }
         self.delay = delay;
     }
